@@ -37,7 +37,8 @@ def make_generator(name, prog, acl_text, vendor, declines=None, acl_safe_text=No
                 k += 1
                 yield tuple(o["row"]) if (k % 2 and len(o["row"]) > 1) else " ".join(o["row"])
             elif op == "ym":
-                yield "\n".join(" ".join(r) for r in o["rows"])
+                k += 1          # every other multi-line text has an empty line between its rows (as triple-quoted blocks in generators do)
+                yield ("\n\n" if k % 2 else "\n").join(" ".join(r) for r in o["rows"])
             elif op == "enter":
                 cm = self.block(*o["row"])
                 cm.__enter__()
